@@ -293,20 +293,24 @@ func (s *backendStorageStatic) Reload(config *goconf.ConfigFile) {
 
 	commonSecret, _ := GetStringOptionWithEnv(config, "backend", "secret")
 
-	if backendIds, _ := config.GetString("backend", "backends"); backendIds != "" {
-		configuredHosts := getConfiguredHosts(backendIds, config, commonSecret)
+	// An empty list of backends removes all backends (same as on startup).
+	backendIds, _ := config.GetString("backend", "backends")
+	configuredHosts := getConfiguredHosts(backendIds, config, commonSecret)
 
-		// remove backends that are no longer configured
-		for hostname := range s.backends {
-			if _, ok := configuredHosts[hostname]; !ok {
-				s.RemoveBackendsForHost(hostname)
-			}
+	// remove backends that are no longer configured
+	for hostname := range s.backends {
+		if _, ok := configuredHosts[hostname]; !ok {
+			s.RemoveBackendsForHost(hostname)
 		}
+	}
 
-		// rewrite backends adding newly configured ones and rewriting existing ones
-		for hostname, configuredBackends := range configuredHosts {
-			s.UpsertHost(hostname, configuredBackends)
-		}
+	// rewrite backends adding newly configured ones and rewriting existing ones
+	for hostname, configuredBackends := range configuredHosts {
+		s.UpsertHost(hostname, configuredBackends)
+	}
+
+	if len(s.backends) == 0 {
+		log.Printf("WARNING: No backends configured, client connections will not be possible.")
 	}
 }
 
